@@ -24,10 +24,12 @@ def units(tier, seed):
         us.append({'name': f'fcbo_dual {m}x{n}', 'fn': 'unit_fcbo', 'args': {'n': m, 'm': n, 'which': 'dual'},
                    'split': 6 if m >= 3 else 0})
     us += _mk.table_units(t)
+    us += _mk.inductive_units(tier) + _mk.skeleton_units(tier, seed)
     return _mk.order(us)
 
 
 unit_kernel = _mk.kernel_unit_for(PID)
+unit_inductive = _mk.inductive_unit_for(PID)
 
 
 def unit_fcbo(args, prefix=(), max_depth=None):
